@@ -570,8 +570,24 @@ pub fn replay_file(defs: &[&'static CheckDef], path: &str, verif_dir: &str, quie
     };
     let findings = load_findings(&format!("{verif_dir}/known_findings.json")).unwrap_or_default();
     let open: BTreeSet<String> = findings.iter().filter(|f| f.property == def.id && f.status == "open").map(|f| f.id.clone()).collect();
-    let tape: Vec<u32> = doc["tape"].as_array().map(|a| a.iter().map(|v| v.as_u64().unwrap_or(0) as u32).collect()).unwrap_or_default();
     let class = doc["class"].as_str().unwrap_or("").to_string();
+    if doc["generate"].as_bool() == Some(true) {
+        // a run that kills the process: re-run it in a child and look at how the child ends
+        let seed = doc["seed"].as_u64().unwrap_or(1);
+        let idx = doc["run_index"].as_u64().unwrap_or(0);
+        return match range_dies(def.id, seed, idx, idx + 1) {
+            Some(how) => {
+                println!("reproduced: run {idx} (seed {seed}) kills the process ({how})");
+                println!("VIOLATION property={} replay={}", def.id, path);
+                1
+            }
+            None => {
+                println!("replay of {path}: run {idx} no longer kills the process");
+                0
+            }
+        };
+    }
+    let tape: Vec<u32> = doc["tape"].as_array().map(|a| a.iter().map(|v| v.as_u64().unwrap_or(0) as u32).collect()).unwrap_or_default();
     let cr = exec_case(def, Tape::replay(tape), true);
     if let Some(e) = cr.harness_error {
         eprintln!("harness error: {e}");
@@ -611,4 +627,73 @@ pub fn replay_file(defs: &[&'static CheckDef], path: &str, verif_dir: &str, quie
         println!("replay of {path}: class {class} not reproduced (observed: {:?})", cr.out.viols.iter().map(|v| &v.class).collect::<Vec<_>>());
         0
     }
+}
+
+/// Does running the indices [a, b) kill a fresh process?
+fn range_dies(id: &str, seed: u64, a: u64, b: u64) -> Option<String> {
+    let st = std::process::Command::new(std::env::current_exe().unwrap())
+        .args(["range", id, &a.to_string(), &b.to_string()])
+        .env("VERIF_SEED", seed.to_string())
+        .env("VERIF_WORKERS", "1")
+        .stdout(std::process::Stdio::null())
+        .stderr(std::process::Stdio::null())
+        .status()
+        .ok()?;
+    if st.success() {
+        None
+    } else {
+        use std::os::unix::process::ExitStatusExt;
+        Some(match st.signal() {
+            Some(sig) => format!("signal {sig}"),
+            None => format!("exit status {:?}", st.code()),
+        })
+    }
+}
+
+/// The search process died (stack overflow, abort, out of memory). Find the first run index that kills
+/// a fresh single-threaded process and report it as a violation whose replay file regenerates the tape
+/// from (seed, run index). Exit 1 = found and reported, 2 = nothing reproduces.
+pub fn locate_abort(def: &'static CheckDef, seed: u64, total: u64, verif_dir: &str) -> i32 {
+    let chunk = 2048u64;
+    let mut start = 0u64;
+    while start < total {
+        let end = (start + chunk).min(total);
+        if let Some(how) = range_dies(def.id, seed, start, end) {
+            // bisect
+            let (mut lo, mut hi) = (start, end);
+            while hi - lo > 1 {
+                let mid = (lo + hi) / 2;
+                if range_dies(def.id, seed, lo, mid).is_some() {
+                    hi = mid;
+                } else {
+                    lo = mid;
+                }
+            }
+            if range_dies(def.id, seed, lo, lo + 1).is_none() {
+                eprintln!("harness error: runs {start}..{end} kill the process ({how}) but no single run does");
+                return 2;
+            }
+            let dir = format!("{verif_dir}/replays/{}", def.id);
+            let _ = std::fs::create_dir_all(&dir);
+            let path = format!("{dir}/{seed}-{lo}-abort.json");
+            let doc = json!({
+                "property": def.id,
+                "class": "process-abort",
+                "seed": seed,
+                "run_index": lo,
+                "generate": true,
+                "tape": [],
+                "detail": format!("run {lo} of the search (seed {seed}) kills the process ({how}): stack overflow, abort or out of memory inside the system under test; the tape is regenerated from (seed, run index) on replay"),
+            });
+            if std::fs::write(&path, serde_json::to_string_pretty(&doc).unwrap()).is_err() {
+                return 2;
+            }
+            println!("violation class=process-abort run={lo}: the run kills the process ({how})");
+            println!("VIOLATION property={} replay={}", def.id, path);
+            return 1;
+        }
+        start = end;
+    }
+    eprintln!("harness error: the search process died but no run reproduces it in a single-threaded process (out of memory under load?)");
+    2
 }
